@@ -401,7 +401,9 @@ fn scenario_oplog(sc: &str) -> Result<Violations, String> {
     // sc = "<t0.t1.t2...>|<since>"   record i has time t_i, db 1 + i % 2, key 10 + (i / 2) % 2, op i % 4
     use nundb::disk_ops::*;
     let p: Vec<&str> = sc.split('|').collect();
-    let times: Vec<u64> = p[0].split('.').filter(|x| !x.is_empty()).map(|x| x.parse().unwrap()).collect();
+    // "n<count>": a long log - <count> records with the times 1000, 1001, ... over 2 databases x 40 keys (longer than any block a reader may fetch at once)
+    let long = p[0].starts_with('n');
+    let times: Vec<u64> = if long { (0..p[0][1..].parse::<u64>().map_err(|_| "bad count")?).map(|i| 1000 + i).collect() } else { p[0].split('.').filter(|x| !x.is_empty()).map(|x| x.parse().unwrap()).collect() };
     let since: u64 = p[1].parse().map_err(|_| "bad since")?;
     let dir = std::env::var("NUN_DBS_DIR").map_err(|_| "NUN_DBS_DIR not set")?;
     // consecutive scenarios that differ only in `since` share the files on disk (the rotated files must have strictly increasing creation times, and file timestamps
@@ -413,7 +415,7 @@ fn scenario_oplog(sc: &str) -> Result<Violations, String> {
     let mut bytes: Vec<u8> = vec![];
     // rotated scenarios use two keys of one database so that a key has records of different kinds in different files
     let rotated = p.len() > 2;
-    let rec = |i: usize| -> (u64, u64, u8) { if rotated { (1, 10 + (i % 2) as u64, (i % 4) as u8) } else { (1 + (i % 2) as u64, 10 + ((i / 2) % 2) as u64, (i % 4) as u8) } };
+    let rec = |i: usize| -> (u64, u64, u8) { if long { (1 + (i % 2) as u64, 10 + ((i / 2) % 40) as u64, (i % 4) as u8) } else if rotated { (1, 10 + (i % 2) as u64, (i % 4) as u8) } else { (1 + (i % 2) as u64, 10 + ((i / 2) % 2) as u64, (i % 4) as u8) } };
     for (i, t) in times.iter().enumerate() {
         let (db, key, op) = rec(i);
         bytes.extend_from_slice(&t.to_le_bytes()); bytes.extend_from_slice(&key.to_le_bytes()); bytes.extend_from_slice(&db.to_le_bytes()); bytes.push(op);
@@ -460,6 +462,10 @@ fn scenario_oplog(sc: &str) -> Result<Violations, String> {
         if let Ok(rd) = std::fs::read_dir(format!("{}/oplog", dir)) { for e in rd.flatten() { eprintln!("file {:?} created {:?} len {}", e.file_name(), e.metadata().unwrap().created().unwrap(), e.metadata().unwrap().len()); } }
         let mut ks: Vec<_> = r.iter().map(|(k, o)| (k.clone(), o.timestamp, o.opp.to_u8())).collect(); ks.sort(); eprintln!("result {:?}", ks);
     }
+    // nothing is invented: every pair the query names is a pair the log mentions, labelled with one of its records (a pair whose records are all older than the starting point may
+    // be named too - the statement asks for every pair with a record at or after it, not for those only)
+    let named: std::collections::HashSet<String> = (0..times.len()).map(|i| { let (db, key, _) = rec(i); format!("{}_{}", db, key) }).collect();
+    chk(&mut v, "C12.latest", r.iter().all(|(k, o)| named.contains(k) && format!("{}_{}", o.db, o.key) == *k));
     let lt = Oplog::last_op_time();
     if cuts.is_empty() || start < times.len() { chk(&mut v, "C12.last-op-time", lt == times.last().cloned().unwrap_or(0)); }
     Ok(v)
@@ -489,6 +495,7 @@ fn all_oplog_scenarios() -> Vec<String> {
     }
     rotated.sort_by(|a, b| (a.0.as_str(), a.1.as_str()).cmp(&(b.0.as_str(), b.1.as_str())));
     for (times, cuts, since) in rotated { out.push(format!("{}|{}|{}", times, since, cuts)); }
+    for since in [0u64, 999, 1000, 1001, 1100, 1163, 1164, 1236, 1399, 1400] { out.push(format!("n400|{}", since)); out.push(format!("n400|{}|150.300", since)); }
     out
 }
 
@@ -672,6 +679,14 @@ fn scenario_session(sc: &str) -> Result<Violations, String> {
         }
         // ---- C08: $$ keys are unchanged by a non-admin session; C09: admin state unchanged
         chk(&mut v, "C08.secure-unchanged", secure_dump(&w) == before);
+        // ---- C08: afterwards an administrator writes and removes secure keys (values differ between the two worlds): whatever the session subscribed to, it hears nothing of it
+        {   let (mut adm, mut adrx) = Client::new_empty_and_receiver();
+            for cmd in ["auth u p".to_string(), "use-db d tok".to_string(), format!("set $$secret S3CR3T-again-{}", variant), format!("set $$fresh F-{}", if variant == 0 { "a" } else { "bb" }), "create-user late lt".to_string(), "remove $$fresh".to_string()] { run_cmd(&w, &mut adm, &mut adrx, &cmd); }
+            let heard = drain(&mut rx);
+            chk(&mut v, "C08.secure-guard", !heard.iter().any(|m| m.contains("$$")));
+            chk(&mut v, "C08.watch-never-reports-secure-keys", !heard.iter().any(|m| m.contains("$$")));
+            tr.push(format!("afterwards {:?}", heard));
+        }
         let dbs_after: Vec<String> = { let m = w.dbs.map.read().unwrap(); let mut x: Vec<String> = m.keys().cloned().collect(); x.sort(); x };
         chk(&mut v, "C09.auth-gate", dbs_after == dbs_before);
         transcripts.push(tr);
@@ -687,6 +702,7 @@ fn all_session_scenarios() -> Vec<String> {
         for k in PERM_KEYS { for c in ["get", "set", "increment", "remove", "watch"] { out.push(format!("{}|{} {}{}", l, c, k, if c == "set" { " v" } else if c == "increment" { " 1" } else { "" })); } }
         for pat in ["keys g*", "keys *e", "keys on", "keys go*"] { out.push(format!("{}|{}", l, pat)); }
         // a key that merely CONTAINS a secure key's name behind a blank is another key: whatever is done with it tells nothing about, and changes nothing of, the $$ key
+        for wild in ["watch *", "watch $*", "watch *secret", "watch *fresh", "watch $$*"] { out.push(format!("{}|{}", l, wild)); }
         for padded in ["get <CR>$$secret", "get-safe <TAB>$$secret", "get <NBSP>$$secret", "get $$secret<CR>", "watch <CR>$$secret", "remove <CR>$$secret", "remove <TAB>$$token",
                        "set <TAB>$$secret hacked", "increment <CR>$$secret 1", "get <CR>$$user_usr"] { out.push(format!("{}|{}", l, padded)); }
         for f in USE_FAIL { for a in ["get secret", "get public1", "set secret x", "keys", "remove sea"] { out.push(format!("{}|{};{}", l, f, a)); } }
@@ -702,7 +718,7 @@ fn all_session_scenarios() -> Vec<String> {
 }
 
 // ------------------------------------------------------------------ family: values (C01: what is written is what is read, byte for byte, also when it ends in blanks)
-const EDGE_VALUES: [&str; 10] = ["a", "a ", "a  ", "a\t", "two words ", " ", "  ", "x \t ", "tab\tinside", "ação ✓ "];
+const EDGE_VALUES: [&str; 15] = ["a", "a ", "a  ", "a\t", "two words ", " ", "  ", "x \t ", "tab\tinside", "ação ✓ ", "3 new messages", "1 2", "-1 x", "0", "7 "];
 fn scenario_values(sc: &str) -> Result<Violations, String> {
     // sc = "<value idx>|<write kind: set | safe | term>"   term: the line arrives with its "\n" terminator (as the TCP transport delivers it)
     let p: Vec<&str> = sc.split('|').collect();
@@ -1240,6 +1256,10 @@ fn scenario_arbiter_restart(mode: &str, nconf: usize) -> Result<Violations, Stri
     let w = World { dbs: dbs.clone() };
     let (mut c, mut rx) = Client::new_empty_and_receiver();
     for cmd in ["auth u p", "create-db arbdb tok arbiter", "use-db arbdb tok", "set k v0", "set k v1", "set calm c"] { run_cmd(&w, &mut c, &mut rx, cmd); }
+    // mode "Sc" / "Rc": the key is CLEAN on disk when the conflict arrives (a snapshot was taken after its last write): the in-conflict mark must be written by the next snapshot all the same
+    let clean_first = mode.ends_with('c');
+    let mode = &mode[0..1];
+    if clean_first { dbs.to_snapshot.write().unwrap().push((name.clone(), false)); snapshot_all_pendding_dbs(&dbs); }
     let mut v: Violations = vec![];
     let (mut arb0, mut arx0) = Client::new_empty_and_receiver();
     for cmd in ["use-db arbdb tok", "arbiter"] { run_cmd(&w, &mut arb0, &mut arx0, cmd); }
@@ -1328,7 +1348,7 @@ fn scenario_arbiter(sc: &str) -> Result<Violations, String> {
     Ok(v)
 }
 fn all_arbiter_scenarios() -> Vec<String> {
-    vec!["1|0", "2|01", "2|10", "3|012", "3|021", "3|102", "3|120", "3|201", "3|210", "1|0|away", "2|01|away", "2|10|away", "restart|S|1", "restart|R|1", "restart|S|2", "restart|R|3"].into_iter().map(|x| x.to_string()).collect()
+    vec!["1|0", "2|01", "2|10", "3|012", "3|021", "3|102", "3|120", "3|201", "3|210", "1|0|away", "2|01|away", "2|10|away", "restart|S|1", "restart|R|1", "restart|S|2", "restart|R|3", "restart|Sc|1", "restart|Rc|1", "restart|Sc|2"].into_iter().map(|x| x.to_string()).collect()
 }
 
 // ------------------------------------------------------------------ family: watch (subscription windows, sequential)
@@ -1357,6 +1377,8 @@ fn scenario_watch(sc: &str) -> Result<Violations, String> {
             "f" => { set_key_value("k".into(), "zz".into(), 0, &db, &dbs); }
             // the key has never been snapshotted (state New): removing it drops the entry instead of leaving a tombstone - the subscriptions outlive that
             "n" => { db.set_value_version(&"k".to_string(), &"5".to_string(), 3, ValueStatus::New, 0, 0, 3); }
+            // a burst: 60 writes nobody drains in between - a slow subscriber still gets both frames of every one of them
+            "b" => { for _ in 0..60 { set_key_value("k".into(), "7".into(), -1, &db, &dbs); } for w in 0..2 { expect[w] += 120 * sub[w]; } }
             _ => return Err("bad event".into()),
         }
         let got = [drain(&mut ra), drain(&mut rb)];
@@ -1365,7 +1387,7 @@ fn scenario_watch(sc: &str) -> Result<Violations, String> {
             chk(&mut v, "C03.subscription-window", ok);
             chk(&mut v, "C03.watch-appends", ok); chk(&mut v, "C03.watch-frame", ok);
             chk(&mut v, "C03.unwatch-all-only-mine", ok || !sc.contains('x')); chk(&mut v, "C03.unwatch-only-mine", ok || !sc.contains('u'));
-            chk(&mut v, "C03.emit-set", ok || !(ev == "s")); chk(&mut v, "C03.emit-inc", ok || !(ev == "i")); chk(&mut v, "C03.emit-removed", ok || !(ev == "r"));
+            chk(&mut v, "C03.emit-set", ok || !(ev == "s" || ev == "b")); chk(&mut v, "C03.emit-inc", ok || !(ev == "i")); chk(&mut v, "C03.emit-removed", ok || !(ev == "r"));
             chk(&mut v, "C03.no-emit-refused", ok || !(ev == "f"));
             expect[w] = 0;
         }
@@ -1385,6 +1407,7 @@ fn all_watch_scenarios() -> Vec<String> {
     let mut tails = vec![];
     rec(&["s", "i", "r", "wB"], &mut vec![], if deep() { 4 } else { 3 }, &mut tails);
     for t in tails { out.push(format!("n.wA.{}", t)); out.push(format!("wA.n.{}", t)); }
+    for t in ["wA.b", "wA.wB.b.s", "dA.b", "wA.b.b.s", "wA.s.b.r"] { out.push(t.to_string()); }
     out
 }
 
@@ -1505,7 +1528,7 @@ fn scenario_snapshot(sc: &str) -> Result<Violations, String> {
     // sc = ops separated by '.':  s<key><val idx>  r<key>  i<key>  S (incremental snapshot)  R (space-reclaiming snapshot)  L (restart: load from disk)
     use nundb::disk_ops::snapshot_all_pendding_dbs;
     use nundb::storage::disk::{create_db_from_file_name, file_name_from_db_name};
-    let vals: [String; 6] = ["v".into(), "".into(), "two words".into(), "7".into(), "ação ✓ 日本".into(), "x".repeat(700)];
+    let vals: [String; 6] = ["v".into(), "".into(), "two words".into(), "7".into(), "ação ✓ 日本".into(), (0..175).map(|i| format!("{:04}", i * 37 % 10000)).collect::<String>()];   // the long value (700 bytes, larger than any buffer of the writer or the loader) is not periodic: a shifted or repeated chunk shows
     let dir = std::env::var("NUN_DBS_DIR").map_err(|_| "NUN_DBS_DIR not set")?;
     let name = "snapdb".to_string();
     for suf in [".keys", ".values", ".keys.old", ".values.old"] { let _ = std::fs::remove_file(format!("{}{}", file_name_from_db_name(&name), suf)); }
@@ -1561,6 +1584,9 @@ fn scenario_snapshot(sc: &str) -> Result<Violations, String> {
                     chk(&mut v, "C06.loader-decodes-image", &state == sn);
                     chk(&mut v, "C06.write-plan", &state == sn);
                     chk(&mut v, "C06.restore-is-snapshot", &state == sn);
+                    // C02: the version get-safe reports never goes back - a restart included: a key a snapshot covered comes back with the version it had
+                    let versions = |st: &Vec<(String, String, i32)>| -> Vec<(String, i32)> { st.iter().map(|(k, _, ver)| (k.clone(), *ver)).collect() };
+                    chk(&mut v, "C02.version-survives-restart", versions(&state) == versions(sn));
                     chk(&mut v, "C06.metadata-restored", flag);
                     if meta_lost.get() { chk(&mut v, "C19.default-strategy-newer", flag); }
                 }
@@ -1582,7 +1608,7 @@ fn all_snapshot_scenarios() -> Vec<String> {
         if p == len { break; }
     }
     for h in ["va0.S.L", "va0.R.L", "va1.S.L", "va1.sa0.S.L", "va1.ia.S.L", "va1.ia.ia.R.L", "sa0.va0.S.L", "sa0.S.va0.S.L", "va2.sa0.sa0.R.L", "sa0.S.sb0.S.ra.S.L.sb2.S.L", "sa0.S.sb0.S.ra.S.L.rb.S.L", "sa0.S.sb5.S.ra.S.L.ib.S.L", "sb0.S.sa0.S.rb.S.L.sa2.S.L.R.L", "sa0.S.sa2.S.L.ra.S.L.sa3.R.L", "sa5.sb4.S.ra.S.sa0.S.L.ia.R.L.rb.S.L", "sa3.ia.ia.S.L.ia.S.L", "sa0.S.ra.R.sa1.S.L", "sa0.sb0.R.ra.S.sb2.S.L.R.L",
-              "sa0.ra.S.L", "sa0.S.ra.sa1.S.L", "sa1.S.L.sa1.S.L", "sa0.S.L.ra.S.L.L", "sa0.S.M.L", "sa0.sb0.R.M.L", "sa0.S.M.L.sa1.S.L"] { out.push(h.to_string()); }
+              "sa0.ra.S.L", "sa0.S.sa3.S.L", "sa0.S.sa3.S.L.sa0.S.L", "sb5.S.sb5.S.L", "sa0.S.ra.sa1.S.L", "sa1.S.L.sa1.S.L", "sa0.S.L.ra.S.L.L", "sa0.S.M.L", "sa0.sb0.R.M.L", "sa0.S.M.L.sa1.S.L"] { out.push(h.to_string()); }
     out.sort(); out.dedup();
     out
 }
@@ -2233,7 +2259,7 @@ fn family_props(fam: &str) -> &'static [&'static str] {
     match fam {
         "store" => &["C01", "C02", "C03", "C08"], "strategy" => &["C02", "C13", "C19"], "pending" => &["C15"], "ids" => &["C16"], "keymap" => &["C16"],
         "oplog" => &["C05", "C12"], "session" => &["C01", "C08", "C09"], "permchange" => &["C09"], "arbiter" => &["C06", "C13"], "watch" => &["C03"], "lines" => &[], "flood" => &[],
-        "connections" => &["C17"], "snapshot" => &["C01", "C06", "C19"], "resync" => &["C05"], "election" => &["C07"], "http" => &["C20"], "httpserver" => &["C08", "C09", "C17", "C20"], "tcpserver" => &["C03", "C17"], "race" => &["C01", "C02"], "oplogdisk" => &["C16"], "wsserver" => &["C03", "C17", "C20"],
+        "connections" => &["C17"], "snapshot" => &["C01", "C02", "C06", "C19"], "resync" => &["C05"], "election" => &["C07"], "http" => &["C20"], "httpserver" => &["C08", "C09", "C17", "C20"], "tcpserver" => &["C03", "C17"], "race" => &["C01", "C02"], "oplogdisk" => &["C16"], "wsserver" => &["C03", "C17", "C20"],
         "values" => &["C01", "C03"], "forward" => &["C08", "C09"], "resub" => &["C03"], "logthread" => &["C05", "C12", "C15"], "logroll" => &["C12"], "linktag" => &["C07"], "replica" => &["C02", "C05", "C19"], "traffic" => &["C14", "C05"],
         _ => &[],
     }
